@@ -20,6 +20,33 @@ def monitor(case):
                     return idx, "payset grew by %d for an accepted group of %d" % (cur.payset - prev.payset, n)
                 if cur.ctr != prev.ctr + n:
                     return idx, "txn counter grew by %d for an accepted group of %d" % (cur.ctr - prev.ctr, n)
+                g = lcore.parse_group(op)
+                paid = sum(int(t[2]) for t in g if int(t[1]) != st["sink"])
+                if (cur.fees - prev.fees) % lcore.M64 != paid % lcore.M64:
+                    return idx, "feesCollected grew by %d but the accepted group's members paid %d (leak from an earlier, rejected group?)" % (cur.fees - prev.fees, paid)
+                # frame: an accepted group changes only accounts / assets its members name (effects of earlier, rejected groups must not surface)
+                named, assets = {st["sink"]}, set()
+                for t in g:
+                    named.add(int(t[1]))
+                    if t[0] == "pay":
+                        named |= {int(t[7]), int(t[9])}
+                    elif t[0] == "axfer":
+                        named |= {int(t[9]), int(t[10]), int(t[11])}
+                        assets.add(int(t[7]))
+                    elif t[0] == "afrz":
+                        named.add(int(t[8])); assets.add(int(t[7]))
+                    elif t[0] == "acfg":
+                        a = int(t[7])
+                        assets.add(a)
+                        if a in prev.creator and prev.creator[a].isdigit():
+                            named.add(int(prev.creator[a]))
+                for a, rec in cur.acct.items():
+                    if a not in named and prev.acct.get(a) != rec:
+                        return idx, "account %d changed in an accepted group that does not name it" % a
+                created = set(range(prev.ctr + 1, cur.ctr + 1))
+                for key in set(prev.hold) | set(cur.hold):
+                    if key[0] not in assets and key[0] not in created and prev.hold.get(key) != cur.hold.get(key):
+                        return idx, "holding of asset %d in account %d changed in an accepted group that does not name the asset" % key
         elif kind == "dump":
             if st["prev"] is not None and out != st["prev"].raw:
                 a, b = lcore.first_diff(st["prev"].raw, out)
